@@ -69,8 +69,8 @@ type caseSpec struct {
 	// Lower: "" = memory small/large/meta; "disk" = localdisk small, localdisk large, leveldb
 	// meta; "diskpacked" = localdisk small, diskpacked large, leveldb meta.
 	Lower string `json:"lower,omitempty"`
-	Loose  int        `json:"loose"`             // loose non-file blobs uploaded around the file
-	Seed   int64      `json:"seed"`
+	Loose int    `json:"loose"` // loose non-file blobs uploaded around the file
+	Seed  int64  `json:"seed"`
 	// TruncSearch: search a max zip size (below MaxZip) that makes the packer's size estimate
 	// fail: "part0" tries sizes around the first zip only, "any" around every zip.
 	TruncSearch string `json:"trunc_search,omitempty"`
